@@ -9,7 +9,7 @@ use crate::sim::*;
 use serde_json::json;
 use std::collections::BTreeSet;
 use yrs::undo::UndoManager;
-use yrs::{Doc, ReadTxn, Transact};
+use yrs::{Any, Array, Doc, ReadTxn, Text, Transact, WriteTxn};
 
 fn id_sets(doc: &Doc) -> (String, BTreeSet<String>) {
     let vs = store_dump(doc);
@@ -25,7 +25,7 @@ fn id_sets(doc: &Doc) -> (String, BTreeSet<String>) {
 
 fn run_case(seed: u64, index: u64, md: &mut Model, rep: &mut Report) {
     let mut r = Rng::for_case(seed, 107, index);
-    let gc = r.chance(1, 3);
+    let gc = r.chance(1, 2);
     let cleanup = r.chance(1, 2);   // the leader cleans up redundant formatting after remote transactions; the followers never do
     let leader = Replica::new(1, DocCfg { gc, cleanup, ..DocCfg::default() });
     let others = [Replica::new(2, DocCfg::default()), Replica::new(3, DocCfg { gc: r.chance(1, 2), ..DocCfg::default() })];
@@ -33,12 +33,16 @@ fn run_case(seed: u64, index: u64, md: &mut Model, rep: &mut Report) {
     let f2 = Replica::new(12, DocCfg { gc: r.chance(1, 2), ..DocCfg::default() });
     let all_nogc = false; // followers may gc: internal comparison goes through the model follower only when the leader does not gc
     md.ask("D new mf");
+    // (an undo manager keeps what it tracks from being collected: half of the leaders have none)
+    let with_undo = r.chance(1, 2);
     let mut undo = {
         let t = leader.doc.get_or_insert_text(ROOT_TEXT);
         let mut u: UndoManager<()> = UndoManager::new();
-        u.expand_scope(&leader.doc, &t);
-        u.expand_scope(&leader.doc, &leader.doc.get_or_insert_array(ROOT_ARRAY));
-        u.expand_scope(&leader.doc, &leader.doc.get_or_insert_map(ROOT_MAP));
+        if with_undo {
+            u.expand_scope(&leader.doc, &t);
+            u.expand_scope(&leader.doc, &leader.doc.get_or_insert_array(ROOT_ARRAY));
+            u.expand_scope(&leader.doc, &leader.doc.get_or_insert_map(ROOT_MAP));
+        }
         u
     };
     let ecfg = EditCfg::default();
@@ -49,12 +53,22 @@ fn run_case(seed: u64, index: u64, md: &mut Model, rep: &mut Report) {
     let mut disagreements: Vec<serde_json::Value> = vec![];
     let mut interesting = false;
     let steps = r.range(6, 16);
+    let mut streak = false;
     leader.drain1(); leader.drain2();
     for step in 0..steps {
         let (ids_before, del_before) = id_sets(&leader.doc);
-        let kind = r.below(12);
+        let mut kind = r.below(12);
+        // an editor session also has transactions that leave nothing visible (composition that is cancelled: insert and remove in
+        // one transaction), often several in a row: with gc on they leave adjacent collected tombstones that get squashed
+        if kind == 3 || (streak && r.chance(1, 2)) { kind = 100; }
+        streak = kind == 100;
         let mut what = String::new();
         match kind {
+            100 => {
+                let mut txn = leader.doc.transact_mut();
+                if r.chance(2, 3) { let t = txn.get_or_insert_text(ROOT_TEXT); let n = t.len(&txn); let s = ["x", "yz", "abc"][r.below(3) as usize]; t.insert(&mut txn, n, s); t.remove_range(&mut txn, n, s.len() as u32); what = format!("L txn {{t.insert({n},{s:?}); t.remove_range({n},{})}}", s.len()); }
+                else { let a = txn.get_or_insert_array(ROOT_ARRAY); let n = a.len(&txn); tag += 1; a.insert(&mut txn, n, Any::Number((tag * 1000) as f64)); a.remove(&mut txn, n); what = format!("L txn {{a.insert({n},..); a.remove({n})}}"); }
+            }
             0..=3 => { let mut sc = vec![]; { let mut txn = leader.doc.transact_mut(); for _ in 0..r.range(1, 3) { random_call(&leader.doc, &mut txn, &mut r, &ecfg, false, &mut sc, &mut tag); } } what = format!("L txn {{{}}}", sc.join("; ")); }
             4 | 5 => {
                 let o = r.below(2) as usize;
